@@ -565,6 +565,12 @@ async fn run_phase_sqlite(store: Arc<SessionStore>, phase: &Phase, tape: &mut Ta
             let _ = gates[*i].send(q);
         }
         let mut done = 0usize;
+        // Harness-error paths only (never part of the event log): a suspicious state must PERSIST in
+        // real time before it is declared, because sqlx's worker threads are real threads and a
+        // snapshot can catch one between "woken up" and "running" (e.g. just released by the
+        // committing transaction's unlock-notify callback, not yet rescheduled by the OS).
+        let mut stuck_since: Option<std::time::Instant> = None;
+        let mut asleep_since: Option<std::time::Instant> = None;
         let mut spins = 0u64;
         loop {
             while let Ok(_i) = done_rx.try_recv() {
@@ -591,7 +597,10 @@ async fn run_phase_sqlite(store: Arc<SessionStore>, phase: &Phase, tape: &mut Ta
             // error path): it is scheduled like any other statement but does not count as an
             // operation in flight
             let op_statements = waiting.iter().filter(|w| w.as_str() != "ROLLBACK").count();
-            if running == 0 && waiting.is_empty() && lock_waiting > 0 && snap.orphan_transactions == 0 && lock_waiting as usize + done == batch.len() {
+            let all_asleep = running == 0 && waiting.is_empty() && lock_waiting > 0 && snap.orphan_transactions == 0 && lock_waiting as usize + done == batch.len();
+            if !all_asleep {
+                asleep_since = None;
+            } else if asleep_since.get_or_insert_with(std::time::Instant::now).elapsed() > std::time::Duration::from_secs(20) {
                 let log = sh.borrow().log.lines.join("\n");
                 simcore::driver::harness_error(&format!("storesim(sqlite): every operation in flight is asleep on a lock (deadlock inside the store) lock_waiting={lock_waiting} done={done}/{} gate: {}\n{log}", batch.len(), crate::gate::debug_state()));
             }
@@ -612,9 +621,10 @@ async fn run_phase_sqlite(store: Arc<SessionStore>, phase: &Phase, tape: &mut Ta
                     crate::gate::grant_and_wait(&waiting[k]);
                 }
                 spins = 0;
+                stuck_since = None;
             } else {
                 spins += 1;
-                if spins > 400_000 {
+                if spins > 400_000 && stuck_since.get_or_insert_with(std::time::Instant::now).elapsed() > std::time::Duration::from_secs(120) {
                     let log = sh.borrow().log.lines.join("\n");
                     simcore::driver::harness_error(&format!("storesim(sqlite): the system never became quiescent: parked={waiting:?} running={running} lock_waiting={lock_waiting} done={done}/{}\n{log}", batch.len()));
                 }
